@@ -177,13 +177,15 @@ def s3(ctx, rep):
 def s4_s5(ctx, rep):
     P = ctx.P
     f = P.func("syne_tune.optimizer.schedulers.synchronous.hyperband_bracket.get_top_list")
-    # the NaN-filtered list
+    # the NaN-filtered list: a local every element of which enters under "not NaN" - as the `if` of a comprehension or as the guard of
+    # an append in a loop over the rung
+    from .common import inclusion_sites
     valid = None
-    for name in {x.id for x in ast.walk(f.node) if isinstance(x, ast.Name)}:
-        for d in local_defs(f, name):
-            if isinstance(d, ast.ListComp) and d.generators[0].ifs and "isnan" in U(d.generators[0].ifs[0]) and \
-                    any(a[0] == "truth" and a[2] is False for a in atoms_of(d.generators[0].ifs[0], True)):
-                valid = name
+    for name in sorted({x.id for x in ast.walk(f.node) if isinstance(x, ast.Name)}):
+        sites_ = inclusion_sites(ctx, f, name)
+        if sites_ and all(any(a[0] == "truth" and "isnan" in a[1] and a[2] is False for a in at) and any(U(it) == f.params[0] for it in its)
+                          for _, _, at, its in sites_) and len([d for d in local_defs(f, name) if not isinstance(d, tuple)]) == 1:
+            valid = name
     if valid is None:
         raise AnchorError("get_top_list: NaN-filtered list not found")
     ORDERING = {"sorted", "sort", "min", "max", "argsort", "argmin", "argmax", "nanargmin", "nanargmax", "nsmallest", "nlargest", "partition", "argpartition"}
@@ -216,15 +218,18 @@ def s4_s5(ctx, rep):
             f"the sort runs over `{U(arg)}`, which still contains the NaN entries of failed trials: NaN breaks the ordering, so the "
             "promoted prefix can contain a worse valid trial (or a failed one) and drop a better one")
     # top list taken from the sorted list by a prefix slice of the new rung size
-    par = getattr(srt, "_parent", None)
-    ok = isinstance(par, ast.Subscript) and isinstance(par.slice, ast.Slice) and par.slice.lower is None and U(par.slice.upper) == "new_len"
+    from ..engine import deref
+    ok = any(isinstance(x, ast.Subscript) and isinstance(x.slice, ast.Slice) and x.slice.lower is None and x.slice.step is None and x.slice.upper is not None
+             and U(x.slice.upper) == "new_len" and deref(f, x.value) is not None and U(deref(f, x.value)) == U(srt)
+             for x in walk_shallow(f.node, include_lambda=True))
     rep.put(ok, "S4", "agreement", "get_top_list: the promoted trials are the first new_len entries of the sorted valid list", f, srt, "")
     # failed trials only appended after all valid ones, and only on the edge "not enough valid"
     cfg = cfg_of(f)
     pads = [n for n in cfg.nodes if n.kind == "stmt" and isinstance(n.ast, ast.Assign) and isinstance(n.ast.value, ast.BinOp)
             and isinstance(n.ast.value.op, ast.Add) and isinstance(n.ast.value.right, ast.Subscript)
-            and any("isnan" in U(d) for nm in {x.id for x in ast.walk(n.ast.value.right) if isinstance(x, ast.Name)}
-                    for d in local_defs(f, nm) if not isinstance(d, tuple))]
+            and any(bool(inclusion_sites(ctx, f, nm)) and all(any(a[0] == "truth" and "isnan" in a[1] and a[2] is True for a in at_)
+                                                               for _, _, at_, _ in inclusion_sites(ctx, f, nm))
+                    for nm in {x.id for x in ast.walk(n.ast.value.right) if isinstance(x, ast.Name)})]
     ok = len(pads) == 1
     if ok:
         v = pads[0].ast.value
